@@ -221,16 +221,25 @@ def candidates(sch, draw):
                     cands.append(("duplicate-composite-element", pos, mut))
             # cyclic reference (direct) — only where the composite is public
             if ctx == "public":
+                def vc(n):
+                    # the reference that closes a cycle may spell its target in another letter case (lookup ignores case)
+                    return draw(st.sampled_from([n, n, n.swapcase(), n.upper(), n.lower()]))
+
                 def mut(s, p=p, nm=el["name"]):
-                    at_type(s, p)["elements"].append({"kind": "ref", "name": "cyc_self", "type": nm, "offset": None, "description": None, "since": None, "deprecated": None})
+                    at_type(s, p)["elements"].append({"kind": "ref", "name": "cyc_self", "type": vc(nm), "offset": None, "description": None, "since": None, "deprecated": None})
                 cands.append(("cyclic-reference", pos + "-direct", mut))
+                inl = [i for i, e in enumerate(el["elements"]) if e["kind"] == "composite"]
+                if inl:
+                    def mut(s, p=p, nm=el["name"], i=inl[0]):
+                        at_type(s, p)["elements"][i]["elements"].append({"kind": "ref", "name": "cyc_in", "type": vc(nm), "offset": None, "description": None, "since": None, "deprecated": None})
+                    cands.append(("cyclic-reference", pos + "-from-inline-composite", mut))
                 pubs = [t for t in sch["types"] if t["kind"] == "composite" and t is not el]
                 if pubs:
                     def mut(s, p=p, nm=el["name"], other=pubs[0]["name"]):
-                        at_type(s, p)["elements"].append({"kind": "ref", "name": "cyc_a", "type": other, "offset": None, "description": None, "since": None, "deprecated": None})
+                        at_type(s, p)["elements"].append({"kind": "ref", "name": "cyc_a", "type": vc(other), "offset": None, "description": None, "since": None, "deprecated": None})
                         for t in s["types"]:
                             if t["name"] == other:
-                                t["elements"].append({"kind": "ref", "name": "cyc_b", "type": nm, "offset": None, "description": None, "since": None, "deprecated": None})
+                                t["elements"].append({"kind": "ref", "name": "cyc_b", "type": vc(nm), "offset": None, "description": None, "since": None, "deprecated": None})
                     cands.append(("cyclic-reference", pos + "-indirect", mut))
         if kind == "ref":
             def mut(s, p=p):
